@@ -18,6 +18,9 @@ pub fn rows(seed: u64, n: usize) -> Vec<(Value, Value)> {
         [("bak".to_string(), "md".to_string()), ("txt".to_string(), "toml".to_string())].into_iter().collect(),
         [("x".to_string(), "Makefile".to_string())].into_iter().collect(),
         [("Makefile".to_string(), "py".to_string())].into_iter().collect(),
+        // keys are free-form: longer than every registered suffix, compound, with dashes
+        [("properties".to_string(), "toml".to_string()), ("javascript".to_string(), "js".to_string()), ("config.yaml".to_string(), "yaml".to_string())].into_iter().collect(),
+        [("a-very-long-extension-name-indeed".to_string(), "py".to_string()), ("dockerfile".to_string(), "sh".to_string()), ("prod.properties".to_string(), "md".to_string())].into_iter().collect(),
     ];
     let mut i = 0u64;
     let mut push = |ctx: &mut Ctx, path: String, extra: &BTreeMap<String, String>, out: &mut Vec<(Value, Value)>| {
@@ -37,11 +40,13 @@ pub fn rows(seed: u64, n: usize) -> Vec<(Value, Value)> {
             }
         }
     }
-    for p in ["", ".", "..", "a/..", "x", "x.", ".x", "x.cxx", "y.c++", "README", "a.txt", "a.b.c.d.e", "go.mod.bak", "x.mod", "foo.go.sum"] {
+    for p in ["", ".", "..", "a/..", "x", "x.", ".x", "x.cxx", "y.c++", "README", "a.txt", "a.b.c.d.e", "go.mod.bak", "x.mod", "foo.go.sum",
+              "app.properties", "app.prod.properties", "conf/x.config.yaml", "config.yaml", "properties", "a.dockerfile", "dockerfile", "b.javascript",
+              "c.a-very-long-extension-name-indeed", "d.x.a-very-long-extension-name-indeed", "a.properties.bak", "PROPERTIES", "a.Properties"] {
         for extra in &extras { push(&mut ctx, p.to_string(), extra, &mut out); }
     }
     // random part
-    let parts = ["a", "b", "x", "go", "mod", "sum", "d", "ts", "py", "rs", "Makefile", "makefile", "mk", "md", "bak", "cxx", "", "é", "JS", "Rs"];
+    let parts = ["a", "b", "x", "go", "mod", "sum", "d", "ts", "py", "rs", "Makefile", "makefile", "mk", "md", "bak", "cxx", "", "é", "JS", "Rs", "properties", "javascript", "config", "yaml", "prod", "dockerfile"];
     while out.len() < n.max(out.len()) && i < n as u64 {
         let mut rng = Rng::new(seed, i);
         i += 1;
